@@ -298,7 +298,10 @@ def _one(check: Check, parts, spec, names, nlits, tmo, record, form="string"):
     def claims(lc):
         A, b = lc.constraint_matrix, lc.constraint_values
         outcome["r"] = "accepted"
-        yield "one row per constraint, in order", bool(A.shape == (len(parts), len(names)) and b.shape == (len(parts),))
+        shape_ok = bool(A.shape == (len(parts), len(names)) and b.shape == (len(parts),))
+        yield "one row per constraint, in order", shape_ok
+        if not shape_ok:
+            return
         for i, p in enumerate(parts):
             want = ref_eval(p[1], xs, lit_syms)
             if p[0] == "eq":
